@@ -616,35 +616,36 @@ class Engine
       if (overlapped) st->Add("opt_windows_overlapping_an_exclusive_section");
     }
     t_mon.sigs[40 + (ok ? 0 : 1)] |= 1ULL << ((overlapped ? 1 : 0) + 2 * (strcmp(api, "VerifyVersion") == 0 ? 0 : (strcmp(api, "TryLockS") == 0 ? 1 : (strcmp(api, "TryLockSIX") == 0 ? 2 : (strcmp(api, "TryLockX") == 0 ? 3 : 4)))));
+    const char *vprop = (strncmp(api, "CompositeGuard", 14) == 0) ? "C13" : "C03";
     if (ok) {
       if (!g_cfg.arbitrary_versions && overlapped) {
-        Violate("C03", Fmt("opt:%s-succeeded-across-exclusive-section", api),
+        Violate(vprop, Fmt("opt:%s-succeeded-across-exclusive-section", api),
                 Fmt("lock=%d thread=%d %s succeeded although exclusive section #%" PRIu64
                     " was active or committed between obtaining version %u and the check "
                     "(x_done after GetVersion=%" PRIu64 ", x_begun before check=%" PRIu64 ")",
                     b.index, t_mon.tid, api, w.d1 + 1, ver_before, w.d1, w.b2));
       }
       if (!g_cfg.arbitrary_versions && !w.consistent) {
-        Violate("C03", Fmt("opt:%s-validated-inconsistent-snapshot", api),
+        Violate(vprop, Fmt("opt:%s-validated-inconsistent-snapshot", api),
                 Fmt("lock=%d thread=%d %s succeeded but the payload read in between was "
                     "half-updated (first word %" PRIu64 ")",
                     b.index, t_mon.tid, api, w.pay0));
       }
       // a successful check also means: no exclusive holder active during the whole check
       if (w.b2 > w.d3) {
-        Violate("C03", Fmt("opt:%s-succeeded-while-exclusive-section-active", api),
+        Violate(vprop, Fmt("opt:%s-succeeded-while-exclusive-section-active", api),
                 Fmt("lock=%d thread=%d %s succeeded although exclusive section #%" PRIu64
                     " was active during the whole check",
                     b.index, t_mon.tid, api, w.d3 + 1));
       }
       if (ver_after != ver_before) {
-        Violate("C03", Fmt("opt:%s-succeeded-but-changed-guard-version", api),
+        Violate(vprop, Fmt("opt:%s-succeeded-but-changed-guard-version", api),
                 Fmt("lock=%d %s succeeded with version %u but guard now carries %u", b.index, api,
                     ver_before, ver_after));
       }
     } else {
       if (w.b3 == w.rel0) {
-        Violate("C03", Fmt("opt:%s-failed-although-version-unchanged", api),
+        Violate(vprop, Fmt("opt:%s-failed-although-version-unchanged", api),
                 Fmt("lock=%d thread=%d %s failed (guard version %u -> %u) although no exclusive "
                     "grant ended between obtaining the version and the check (x_rel before "
                     "GetVersion=%" PRIu64 " == x_begun after check=%" PRIu64 ")",
@@ -652,7 +653,7 @@ class Engine
       }
       std::string set;
       if (!PlausibleVersion(b, ver_after, w.rel2, w.b3, set)) {
-        Violate("C03", Fmt("opt:%s-failed-and-left-a-version-that-was-never-current", api),
+        Violate(vprop, Fmt("opt:%s-failed-and-left-a-version-that-was-never-current", api),
                 Fmt("lock=%d thread=%d failed %s left the guard with version %u; versions that "
                     "can have been current during the call: {%s}",
                     b.index, t_mon.tid, api, ver_after, set.c_str()));
@@ -985,12 +986,13 @@ PointCb(int id, const void *obj)
       break;
     }
     case kMcsNodeTaken:
-      EverInsert(obj);
+      NodeStateTaken(obj);
 #if VERIF_ASAN
       ASAN_UNPOISON_MEMORY_REGION(obj, 8);
 #endif
       break;
     case kMcsNodeRecycle:
+      NodeStateRecycled(obj);
 #if VERIF_ASAN
       ASAN_POISON_MEMORY_REGION(obj, 8);
 #endif
@@ -1304,6 +1306,7 @@ Run()
     }
   }
 
+  if constexpr (T::kMcs) ReportNodeStateViolations();
   // sanitizer records
   {
     const int n = std::min(g_san_n.load(), kMaxSan);
